@@ -153,6 +153,53 @@ func c19Guard(fn func()) string {
 	}
 }
 
+// c19Group: the leading words of a case label ("truncated-12-of-90/v4R2" -> "truncated"), used to give failures of
+// different checks different sub-test names.
+func c19Group(kind string) string {
+	n := 0
+	for n < len(kind) {
+		ch := kind[n]
+		if (ch >= 'a' && ch <= 'z') || (ch >= 'A' && ch <= 'Z') || ch == '-' || ch == '_' {
+			n++
+			continue
+		}
+		break
+	}
+	g := strings.Trim(strings.ReplaceAll(strings.ToLower(kind[:n]), "-", "_"), "_")
+	if g == "" {
+		g = "other"
+	}
+	return g
+}
+
+// c19Info counts observations that are stricter than the property (never a failure): one t.Logf line each.
+type c19Info struct {
+	count map[string]int
+	first map[string]string
+}
+
+func (i *c19Info) add(name, format string, args ...any) {
+	if i.count[name] == 0 {
+		msg := fmt.Sprintf(format, args...)
+		if len(msg) > 1500 {
+			msg = msg[:1500] + "...(truncated)"
+		}
+		i.first[name] = msg
+	}
+	i.count[name]++
+}
+
+func (i *c19Info) report(t *testing.T) {
+	var names []string
+	for k := range i.count {
+		names = append(names, k)
+	}
+	sort.Strings(names)
+	for _, k := range names {
+		t.Logf("INFO c19 %s: %d cases, first: %s", k, i.count[k], i.first[k])
+	}
+}
+
 // ---- the specification side ----
 
 // c19MsgVariant selects deliberate deviations from the specified message layout (all false = the specification).
@@ -441,6 +488,7 @@ type c19Ctx struct {
 	rng *rand.Rand
 	st  *c19Stat
 	f   *c19Failures
+	inf *c19Info
 	ex  *c19Exec
 	srv *Server
 	now time.Time
@@ -473,13 +521,17 @@ func (c *c19Ctx) check(srv *Server, p *Proof, dom string) c19Result {
 func (c *c19Ctx) accept(kind string, srv *Server, p *Proof, dom string, want ed25519.PublicKey) bool {
 	c.st.add(kind + "|" + dom + "|" + c19ProofJSON(p))
 	r := c.check(srv, p, dom)
+	sfx := ""
+	if g := c19Group(kind); g != "valid" {
+		sfx = "_" + g
+	}
 	switch {
 	case r.bad != "":
-		c.f.add("rc_panic_checkproof", "%s: CheckProof %s; domain=%q proof=%s", kind, r.bad, dom, c19ProofJSON(p))
+		c.f.add("rc_panic_checkproof_valid_proof"+sfx, "%s: CheckProof %s; domain=%q proof=%s", kind, r.bad, dom, c19ProofJSON(p))
 	case !r.ok || r.err != nil:
-		c.f.add("rc_valid_proof_rejected", "%s: CheckProof = (%v, %x, %v), want accepted with key %x; domain=%q proof=%s", kind, r.ok, []byte(r.key), r.err, []byte(want), dom, c19ProofJSON(p))
+		c.f.add("rc_valid_proof_rejected"+sfx, "%s: CheckProof = (%v, %x, %v), want accepted with key %x; domain=%q proof=%s", kind, r.ok, []byte(r.key), r.err, []byte(want), dom, c19ProofJSON(p))
 	case !want.Equal(r.key):
-		c.f.add("rc_wrong_key_returned", "%s: CheckProof returned key %x, want %x; domain=%q proof=%s", kind, []byte(r.key), []byte(want), dom, c19ProofJSON(p))
+		c.f.add("rc_wrong_key_returned"+sfx, "%s: CheckProof returned key %x, want %x; domain=%q proof=%s", kind, []byte(r.key), []byte(want), dom, c19ProofJSON(p))
 	default:
 		return true
 	}
@@ -492,7 +544,7 @@ func (c *c19Ctx) reject(cause, kind string, srv *Server, p *Proof, dom string) {
 	r := c.check(srv, p, dom)
 	switch {
 	case r.bad != "":
-		pc := "rc_panic_checkproof"
+		pc := "rc_panic_checkproof_" + strings.TrimPrefix(cause, "rc_")
 		if cause == "rc_stateinit_missing_code_or_data" {
 			pc = cause // known root cause: ParseStateInit used to return (nil, nil) and ed25519.Verify panics on an empty key
 		}
@@ -500,8 +552,33 @@ func (c *c19Ctx) reject(cause, kind string, srv *Server, p *Proof, dom string) {
 	case r.ok:
 		c.f.add(cause, "%s: CheckProof accepted (key %x, err %v), want rejected; domain=%q proof=%s", kind, []byte(r.key), r.err, dom, c19ProofJSON(p))
 	case r.err == nil:
-		c.f.add("rc_reject_without_error", "%s: CheckProof = (false, %x, nil): rejected without an error; domain=%q proof=%s", kind, []byte(r.key), dom, c19ProofJSON(p))
+		c.f.add("rc_reject_without_error_"+strings.TrimPrefix(cause, "rc_"), "%s: CheckProof = (false, %x, nil): rejected without an error; domain=%q proof=%s", kind, []byte(r.key), dom, c19ProofJSON(p))
 	}
+}
+
+// observe: stricter than the property: an accepted proof is only counted (informational); a panic is still a failure.
+func (c *c19Ctx) observe(name, kind string, srv *Server, p *Proof, dom string) {
+	c.st.add(kind + "|" + dom + "|" + c19ProofJSON(p))
+	r := c.check(srv, p, dom)
+	switch {
+	case r.bad != "":
+		c.f.add("rc_panic_checkproof_"+name, "%s: CheckProof %s; domain=%q proof=%s", kind, r.bad, dom, c19ProofJSON(p))
+	case r.ok:
+		c.inf.add(name, "%s: CheckProof accepted (key %x); domain=%q proof=%s", kind, []byte(r.key), dom, c19ProofJSON(p))
+	case r.err == nil:
+		c.f.add("rc_reject_without_error_"+name, "%s: CheckProof = (false, %x, nil): rejected without an error; domain=%q proof=%s", kind, []byte(r.key), dom, c19ProofJSON(p))
+	}
+}
+
+// section runs one part of the test; a panic outside the guarded library calls (test helpers, oracle) is reported as
+// its own sub-test instead of killing the run.
+func (c *c19Ctx) section(name string, fn func()) {
+	defer func() {
+		if r := recover(); r != nil {
+			c.f.add("rc_section_panic_"+name, "panic outside a guarded call in section %s: %v", name, r)
+		}
+	}()
+	fn()
 }
 
 // sign builds a proof with the specification's message, without any library code.
@@ -551,8 +628,7 @@ var c19Domains = []string{"web", "example.com", "", "sub.domain.example.org:8443
 
 func TestVerifStandin_C19_Proofs(t *testing.T) {
 	f := c19NewFailures(
-		"rc_panic_checkproof", "rc_panic_parsestateinit", "rc_panic_checkpayload",
-		"rc_valid_proof_rejected", "rc_wrong_key_returned", "rc_reject_without_error",
+		"rc_panic_checkpayload", "rc_valid_proof_rejected", "rc_wrong_key_returned",
 		"rc_create_signed_proof_failed", "rc_generate_payload_failed", "rc_executor_call",
 		"rc_client_signature_not_over_spec_message", "rc_server_rejects_spec_signature",
 		"rc_no_key_source_accepted", "rc_getter_key_not_preferred",
@@ -561,28 +637,43 @@ func TestVerifStandin_C19_Proofs(t *testing.T) {
 		"rc_signature_mutation_accepted", "rc_signature_malformed_accepted", "rc_other_key_signature_accepted",
 		"rc_nonspec_message_accepted",
 		"rc_stateinit_other_key_accepted", "rc_stateinit_unknown_code_accepted", "rc_stateinit_missing_code_or_data",
-		"rc_stateinit_malformed_accepted", "rc_stateinit_lockup_wrong_key", "rc_stateinit_lockup_zero_key_forgery",
-		"rc_proof_expired_accepted", "rc_proof_future_timestamp_accepted", "rc_proof_bad_payload_accepted",
+		"rc_stateinit_malformed_accepted", "rc_stateinit_multiroot_accepted", "rc_stateinit_truncated_accepted",
+		"rc_stateinit_short_data_accepted", "rc_stateinit_lockup_version_yields_zero_key",
+		"rc_proof_expired_accepted", "rc_proof_payload_other_secret_accepted", "rc_proof_payload_expired_accepted",
+		"rc_proof_payload_malformed_accepted",
 		"rc_payload_fresh_rejected", "rc_payload_expired_accepted", "rc_payload_other_secret_accepted",
-		"rc_payload_tampered_accepted", "rc_payload_malformed_accepted", "rc_payload_format",
-		"rc_parsestateinit_wrong_key", "rc_parsestateinit_bad_result", "rc_parsestateinit_short_data_accepted",
+		"rc_payload_tampered_accepted", "rc_payload_malformed_accepted", "rc_payload_format", "rc_payload_repeated",
+		"rc_payload_time", "rc_new_server_failed", "rc_new_server_nil_executor",
+		"rc_parsestateinit_wrong_key", "rc_parsestateinit_short_data_accepted",
 		"rc_known_version_missing",
 	)
 	c := &c19Ctx{
 		rng: rand.New(rand.NewSource(c19Seed())),
 		st:  c19NewStat("C19_Proofs"),
 		f:   f,
+		inf: &c19Info{count: map[string]int{}, first: map[string]string{}},
 		ex:  &c19Exec{},
 		now: time.Now(),
 	}
+	// printed and reported whatever happens below
+	defer func() {
+		c.st.print()
+		c.inf.report(t)
+		f.report(t)
+	}()
 	secret := fmt.Sprintf("c19-secret-%d", c19Seed())
-	srv, err := NewTonConnect(c.ex, secret)
-	if err != nil {
-		t.Fatalf("NewTonConnect: %v", err)
+	srv := c.newServer(secret)
+	if srv == nil {
+		return
 	}
 	c.srv = srv
-	if _, err := NewTonConnect(nil, secret); err == nil {
-		t.Errorf("NewTonConnect(nil executor) succeeded")
+	c.st.add("new-server-nil-executor")
+	if bad := c19Guard(func() {
+		if s, err := NewTonConnect(nil, secret); err == nil {
+			f.add("rc_new_server_nil_executor", "NewTonConnect(nil executor) = (%v, nil), want an error", s)
+		}
+	}); bad != "" {
+		f.add("rc_new_server_nil_executor", "NewTonConnect(nil executor): %s", bad)
 	}
 
 	// key pairs; one of them has a public key starting with a zero byte (31-byte big integer on the TVM stack)
@@ -633,21 +724,31 @@ func TestVerifStandin_C19_Proofs(t *testing.T) {
 
 	payloads := []string{c.payload(srv), c.payload(srv), c.payload(srv), c.payload(srv)}
 	if payloads[0] == payloads[1] {
-		f.add("rc_payload_format", "two consecutive payloads are equal: %s", payloads[0])
+		f.add("rc_payload_repeated", "two consecutive payloads are equal: %s", payloads[0])
 	}
 
-	c.positives(wallets, payloads, strangerPub)
-	c.negatives(byVer, chain, payloads, stranger)
-	c.stateInits(byVer, payloads, stranger)
-	c.expiry(byVer, payloads, secret)
-	c.payloadChecks(secret)
-	c.parseStateInit(wallets, byVer, keys)
+	c.section("positives", func() { c.positives(wallets, payloads, strangerPub) })
+	c.section("negatives", func() { c.negatives(byVer, chain, payloads, stranger) })
+	c.section("state_inits", func() { c.stateInits(byVer, payloads, stranger) })
+	c.section("expiry", func() { c.expiry(byVer, payloads, secret) })
+	c.section("payload_checks", func() { c.payloadChecks(secret) })
+	c.section("parse_state_init", func() { c.parseStateInit(wallets, byVer, keys) })
 
 	if len(c.ex.badCalls) > 0 {
 		f.add("rc_executor_call", "executor called with something else than get_public_key (78748) and an empty stack: %v", c.ex.badCalls)
 	}
-	c.st.print()
-	f.report(t)
+}
+
+// newServer: NewTonConnect under guard; nil (and a recorded failure) when the library refuses.
+func (c *c19Ctx) newServer(secret string, opts ...Option) *Server {
+	var s *Server
+	var err error
+	bad := c19Guard(func() { s, err = NewTonConnect(c.ex, secret, opts...) })
+	if bad != "" || err != nil || s == nil {
+		c.f.add("rc_new_server_failed", "NewTonConnect(executor, %q, %d options): %s err=%v", secret, len(opts), bad, err)
+		return nil
+	}
+	return s
 }
 
 // positives: every wallet x executor flavour; the domain, timestamp and payload rotate (thorough: all domains).
@@ -683,7 +784,7 @@ func (c *c19Ctx) positives(wallets []*c19Wallet, payloads []string, wrongKey ed2
 			c.ex.fn = func(acc ton.AccountID) (uint32, tlb.VmStack, error) { return 0, nil, errors.New("c19: no account") }
 			c.st.add("server-spec|" + c19ProofJSON(sp))
 			if r := c.check(c.srv, sp, dom); r.bad != "" {
-				c.f.add("rc_panic_checkproof", "%s: CheckProof %s; proof=%s", id, r.bad, c19ProofJSON(sp))
+				c.f.add("rc_panic_checkproof_spec_signature", "%s: CheckProof %s; proof=%s", id, r.bad, c19ProofJSON(sp))
 			} else if !r.ok || r.err != nil || !w.pub.Equal(r.key) {
 				c.f.add("rc_server_rejects_spec_signature", "%s: proof signed over the specified message: CheckProof = (%v, %x, %v); proof=%s", id, r.ok, []byte(r.key), r.err, c19ProofJSON(sp))
 			}
@@ -867,7 +968,7 @@ func (c *c19Ctx) negativesOf(id string, w, other *c19Wallet, base *Proof, dom st
 			continue // palindromic
 		}
 		vp := c19SpecProof(w.addr, w.priv, w.siB64, dom, ts, payload, v)
-		c.reject("rc_nonspec_message_accepted", "signed-"+name+"/"+id, c.srv, vp, dom)
+		c.reject("rc_nonspec_message_accepted_"+strings.NewReplacer("-", "_", "+", "plus_").Replace(name), "signed-"+name+"/"+id, c.srv, vp, dom)
 	}
 	// signature over the message of other field values (what the substitutions above look like from the signer's side)
 	c.reject("rc_nonspec_message_accepted", "signed-for-other-address/"+id, c.srv, mut(func(p *Proof) {
@@ -918,8 +1019,11 @@ func (c *c19Ctx) stateInits(byVer map[wallet.Version][]*c19Wallet, payloads []st
 				"empty-data-cell": c19RawStateInit(code, boc.NewCell()),
 			} {
 				cause := "rc_stateinit_missing_code_or_data"
-				if name == "data-as-code" {
+				switch name {
+				case "data-as-code":
 					cause = "rc_stateinit_unknown_code_accepted"
+				case "empty-data-cell":
+					cause = "rc_stateinit_short_data_accepted"
 				}
 				for _, signer := range []ed25519.PrivateKey{attacker, w.priv} {
 					c.reject(cause, "si-"+name+"/"+id, c.srv, c19SpecProof(c19AddrOf(si, int32(w.wc)), signer, c19CellB64(si), dom, ts, payload, c19MsgVariant{}), dom)
@@ -986,14 +1090,18 @@ func (c *c19Ctx) stateInits(byVer map[wallet.Version][]*c19Wallet, payloads []st
 			if s == "" {
 				continue
 			}
-			c.reject("rc_stateinit_malformed_accepted", "si-"+name+"/"+ex.name, c.srv, c19SpecProof(w.addr, w.priv, s, dom, ts, payload, c19MsgVariant{}), dom)
+			cause := "rc_stateinit_malformed_accepted"
+			if strings.Contains(name, "root") {
+				cause = "rc_stateinit_multiroot_accepted"
+			}
+			c.reject(cause, "si-"+name+"/"+ex.name, c.srv, c19SpecProof(w.addr, w.priv, s, dom, ts, payload, c19MsgVariant{}), dom)
 		}
 		stepT := 16
 		if c19Thorough() {
 			stepT = 1
 		}
 		for n := 0; n < len(raw); n += stepT {
-			c.reject("rc_stateinit_malformed_accepted", fmt.Sprintf("si-truncated-%d/%s", n, ex.name), c.srv, c19SpecProof(w.addr, w.priv, base64.StdEncoding.EncodeToString(raw[:n]), dom, ts, payload, c19MsgVariant{}), dom)
+			c.reject("rc_stateinit_truncated_accepted", fmt.Sprintf("si-truncated-%d/%s", n, ex.name), c.srv, c19SpecProof(w.addr, w.priv, base64.StdEncoding.EncodeToString(raw[:n]), dom, ts, payload, c19MsgVariant{}), dom)
 		}
 
 		// lockup wallet: its code hash is in knownHashes. Its data is seqno:32 subwallet:32 public_key:256
@@ -1003,18 +1111,20 @@ func (c *c19Ctx) stateInits(byVer map[wallet.Version][]*c19Wallet, payloads []st
 		lockData := c19BitsCell(strings.Repeat("0", 32) + fmt.Sprintf("%032b", uint32(wallet.DefaultSubWallet)) + c19BytesBits(victim.pub) + c19BytesBits(attackerPub) + "0" + "0000" + "0" + "0000" + "0")
 		lockSI := c19RawStateInit(wallet.GetCodeByVer(wallet.V3R2Lockup), lockData)
 		lockAddr := c19AddrOf(lockSI, 0)
-		c.reject("rc_stateinit_lockup_wrong_key", "lockup-signed-by-stranger/"+ex.name, c.srv, c19SpecProof(lockAddr, attacker, c19CellB64(lockSI), dom, ts, payload, c19MsgVariant{}), dom)
+		c.reject("rc_stateinit_lockup_stranger_accepted", "lockup-signed-by-stranger/"+ex.name, c.srv, c19SpecProof(lockAddr, attacker, c19CellB64(lockSI), dom, ts, payload, c19MsgVariant{}), dom)
 		// if the owner signs, the proof is either accepted with the owner's key or refused (unsupported wallet)
 		{
 			p := c19SpecProof(lockAddr, victim.priv, c19CellB64(lockSI), dom, ts, payload, c19MsgVariant{})
 			c.st.add("lockup-owner|" + ex.name + c19ProofJSON(p))
 			r := c.check(c.srv, p, dom)
 			if r.bad != "" {
-				c.f.add("rc_panic_checkproof", "lockup wallet: CheckProof %s; proof=%s", r.bad, c19ProofJSON(p))
+				c.f.add("rc_panic_checkproof_lockup_owner", "lockup wallet: CheckProof %s; proof=%s", r.bad, c19ProofJSON(p))
+			} else if r.ok && string(r.key) == string(make([]byte, 32)) {
+				c.f.add("rc_stateinit_lockup_version_yields_zero_key", "lockup wallet signed by its owner %x: accepted with the all-zero key; proof=%s", []byte(victim.pub), c19ProofJSON(p))
 			} else if r.ok && !victim.pub.Equal(r.key) {
-				c.f.add("rc_stateinit_lockup_wrong_key", "lockup wallet signed by its owner %x: accepted with key %x; proof=%s", []byte(victim.pub), []byte(r.key), c19ProofJSON(p))
+				c.f.add("rc_wrong_key_returned_lockup_owner", "lockup wallet signed by its owner %x: accepted with key %x; proof=%s", []byte(victim.pub), []byte(r.key), c19ProofJSON(p))
 			} else if !r.ok && r.err == nil {
-				c.f.add("rc_reject_without_error", "lockup wallet: (false, _, nil); proof=%s", c19ProofJSON(p))
+				c.f.add("rc_reject_without_error_lockup_owner", "lockup wallet: (false, _, nil); proof=%s", c19ProofJSON(p))
 			}
 		}
 		// forged signature for the all-zero public key (a point of order 4): no private key involved at all
@@ -1022,7 +1132,7 @@ func (c *c19Ctx) stateInits(byVer map[wallet.Version][]*c19Wallet, payloads []st
 		if sig := c19ForgeZeroKeySig(c.rng, msg); sig != nil {
 			p := c19SpecProof(lockAddr, attacker, c19CellB64(lockSI), dom, ts, payload, c19MsgVariant{})
 			p.Proof.Signature = base64.StdEncoding.EncodeToString(sig)
-			c.reject("rc_stateinit_lockup_zero_key_forgery", "lockup-forged-zero-key-signature/"+ex.name, c.srv, p, dom)
+			c.reject("rc_stateinit_lockup_version_yields_zero_key", "lockup-forged-zero-key-signature/"+ex.name, c.srv, p, dom)
 		}
 	}
 }
@@ -1085,9 +1195,8 @@ func c19ForgeZeroKeySig(rng *rand.Rand, msg []byte) []byte {
 // expiry: proof timestamps around the lifetime boundary, and proofs over unacceptable payloads.
 func (c *c19Ctx) expiry(byVer map[wallet.Version][]*c19Wallet, payloads []string, secret string) {
 	dom := "example.com"
-	short, err := NewTonConnect(c.ex, secret, WithLifeTimeProof(10), WithLifeTimePayload(300))
-	if err != nil {
-		c.f.add("rc_valid_proof_rejected", "NewTonConnect with options: %v", err)
+	short := c.newServer(secret, WithLifeTimeProof(10), WithLifeTimePayload(300))
+	if short == nil {
 		return
 	}
 	for _, src := range []string{"state-init", "get-method"} {
@@ -1113,9 +1222,10 @@ func (c *c19Ctx) expiry(byVer map[wallet.Version][]*c19Wallet, payloads []string
 			for _, ts := range []int64{0, 1, -1, math.MinInt64, math.MinInt64 + 1, -now} {
 				c.reject("rc_proof_expired_accepted", fmt.Sprintf("ts=%d/%s", ts, id), c.srv, mk(ts, payloads[0]), dom)
 			}
-			// far future (much more than a lifetime ahead of the server's clock)
+			// far future (much more than a lifetime ahead of the server's clock): the property only demands that EXPIRED
+			// proofs are rejected, so an accepted one is informational
 			for _, ts := range []int64{now + 3000, now + 86400, now + 86400*365*10, 1 << 40, math.MaxInt64, math.MaxInt64 - 1, 1 << 62} {
-				c.reject("rc_proof_future_timestamp_accepted", fmt.Sprintf("future ts=%d (now %d)/%s", ts, now, id), c.srv, mk(ts, payloads[0]), dom)
+				c.observe("future_timestamp_accepted", fmt.Sprintf("future ts=%d (now %d)/%s", ts, now, id), c.srv, mk(ts, payloads[0]), dom)
 			}
 			// lifetime 10 s
 			for _, age := range []int64{0, 5, 7} {
@@ -1145,7 +1255,14 @@ func (c *c19Ctx) expiry(byVer map[wallet.Version][]*c19Wallet, payloads []string
 				"prefix-of-good": good[:32] + strings.Repeat("0", 32),
 			}
 			for name, pl := range bad {
-				c.reject("rc_proof_bad_payload_accepted", "payload-"+name+"/"+id, c.srv, mk(now-5, pl), dom)
+				cause := "rc_proof_payload_malformed_accepted"
+				switch {
+				case strings.HasSuffix(name, "-secret"):
+					cause = "rc_proof_payload_other_secret_accepted"
+				case strings.HasPrefix(name, "expired"):
+					cause = "rc_proof_payload_expired_accepted"
+				}
+				c.reject(cause, "payload-"+name+"/"+id, c.srv, mk(now-5, pl), dom)
 			}
 		}
 	}
@@ -1176,15 +1293,15 @@ func (c *c19Ctx) payloadBad(cause, kind string, srv *Server, payload string) {
 	if ok {
 		c.f.add(cause, "%s: CheckPayload(%q) = (true, %v) with secret %q, want rejected", kind, payload, err, srv.GetSecret())
 	} else if err == nil {
-		c.f.add("rc_reject_without_error", "%s: CheckPayload(%q) = (false, nil)", kind, payload)
+		c.f.add("rc_reject_without_error_"+strings.TrimPrefix(cause, "rc_"), "%s: CheckPayload(%q) = (false, nil)", kind, payload)
 	}
 }
 
 func (c *c19Ctx) payloadChecks(secret string) {
 	mkSrv := func(secret string, opts ...Option) *Server {
-		s, err := NewTonConnect(c.ex, secret, opts...)
-		if err != nil {
-			panic("c19: NewTonConnect: " + err.Error())
+		s := c.newServer(secret, opts...)
+		if s == nil {
+			panic("c19: NewTonConnect refused (recorded under rc_new_server_failed)")
 		}
 		return s
 	}
@@ -1207,7 +1324,7 @@ func (c *c19Ctx) payloadChecks(secret string) {
 				continue
 			}
 			if seen[p] {
-				c.f.add("rc_payload_format", "GeneratePayload() repeated %q", p)
+				c.f.add("rc_payload_repeated", "GeneratePayload() repeated %q", p)
 			}
 			seen[p] = true
 			// the format of the mechanism: hmac_sha256(secret, first 16 bytes)[:16], timestamp close to now
@@ -1218,7 +1335,7 @@ func (c *c19Ctx) payloadChecks(secret string) {
 				c.f.add("rc_payload_format", "GeneratePayload() = %s, the mechanism gives %s for the same nonce and time", p, want)
 			}
 			if d := tsv - time.Now().Unix(); d < -5 || d > 305 {
-				c.f.add("rc_payload_format", "GeneratePayload() = %s carries time %d, now is %d", p, tsv, time.Now().Unix())
+				c.f.add("rc_payload_time", "GeneratePayload() = %s carries time %d, now is %d", p, tsv, time.Now().Unix())
 			}
 			c.payloadOK("fresh", srv, p)
 			for sj, other := range servers {
@@ -1294,21 +1411,25 @@ func (c *c19Ctx) parseStateInit(wallets []*c19Wallet, byVer map[wallet.Version][
 		c.st.add("psi|" + s)
 		bad = c19Guard(func() { key, err = ParseStateInit(s) })
 		if bad != "" {
-			c.f.add("rc_panic_parsestateinit", "%s: ParseStateInit %s; state-init=%q", kind, bad, s)
+			c.f.add("rc_panic_parsestateinit_"+c19Group(kind), "%s: ParseStateInit %s; state-init=%q", kind, bad, s)
 			return
 		}
 		if err == nil && len(key) != 32 {
-			c.f.add("rc_parsestateinit_bad_result", "%s: ParseStateInit = (%x, nil): %d bytes; state-init=%q", kind, key, len(key), s)
+			c.f.add("rc_parsestateinit_bad_keylen_"+c19Group(kind), "%s: ParseStateInit = (%x, nil): %d bytes; state-init=%q", kind, key, len(key), s)
 		}
 		if err != nil && key != nil {
-			c.f.add("rc_parsestateinit_bad_result", "%s: ParseStateInit = (%x, %v): key together with an error; state-init=%q", kind, key, err, s)
+			c.f.add("rc_parsestateinit_key_with_error_"+c19Group(kind), "%s: ParseStateInit = (%x, %v): key together with an error; state-init=%q", kind, key, err, s)
 		}
 		return
 	}
 	wantKey := func(kind, s string, want []byte) {
 		key, err, bad := call(kind, s)
 		if bad == "" && (err != nil || string(key) != string(want)) {
-			c.f.add("rc_parsestateinit_wrong_key", "%s: ParseStateInit = (%x, %v), want key %x; state-init=%q", kind, key, err, want, s)
+			cause := "rc_parsestateinit_wrong_key"
+			if g := c19Group(kind); g != "valid" {
+				cause += "_" + g
+			}
+			c.f.add(cause, "%s: ParseStateInit = (%x, %v), want key %x; state-init=%q", kind, key, err, want, s)
 		}
 	}
 	wantErr := func(cause, kind, s string) {
@@ -1340,7 +1461,7 @@ func (c *c19Ctx) parseStateInit(wallets []*c19Wallet, byVer map[wallet.Version][
 			}
 			w, err := c19MakeWallet(ver, k, 0, &sub, &net)
 			if err != nil {
-				c.f.add("rc_parsestateinit_wrong_key", "oracle: %v", err)
+				c.f.add("rc_oracle_wallet_package", "oracle: %v", err)
 				continue
 			}
 			wantKey(fmt.Sprintf("valid-sub-%d-net-%d/%s", sub, net, w.name), w.siB64, w.pub)
@@ -1354,7 +1475,7 @@ func (c *c19Ctx) parseStateInit(wallets []*c19Wallet, byVer map[wallet.Version][
 		bits := c19CellBits(&w.si.Data.Value.Value)
 		off := c19KeyOffset(ver)
 		if off < 0 || len(bits) < off+256 || bits[off:off+256] != c19BytesBits(w.pub) {
-			c.f.add("rc_parsestateinit_wrong_key", "oracle: the data cell of %s (%d bits) does not carry the key at bit %d", w.name, len(bits), off)
+			c.f.add("rc_oracle_wallet_package", "oracle: the data cell of %s (%d bits) does not carry the key at bit %d", w.name, len(bits), off)
 			continue
 		}
 		wantKey("handbuilt/"+w.name, c19CellB64(c19RawStateInit(code, c19BitsCell(bits))), w.pub)
@@ -1369,7 +1490,7 @@ func (c *c19Ctx) parseStateInit(wallets []*c19Wallet, byVer map[wallet.Version][
 				// key present, trailing fields cut: a value (then the right one) or an error
 				key, err, bad := call(fmt.Sprintf("data-%d-of-%d-bits/%s", n, len(bits), w.name), s)
 				if bad == "" && err == nil && string(key) != string(w.pub) {
-					c.f.add("rc_parsestateinit_wrong_key", "data cut to %d bits of %s: key %x, want %x or an error; state-init=%q", n, w.name, key, []byte(w.pub), s)
+					c.f.add("rc_parsestateinit_wrong_key_cut_data", "data cut to %d bits of %s: key %x, want %x or an error; state-init=%q", n, w.name, key, []byte(w.pub), s)
 				}
 			}
 		}
@@ -1390,7 +1511,7 @@ func (c *c19Ctx) parseStateInit(wallets []*c19Wallet, byVer map[wallet.Version][
 		raw, _ := base64.StdEncoding.DecodeString(w.siB64)
 		for _, roots := range [][]int{{0, 1}, {0, 0}, {1, 0}, {}, {0, 1, 2}} {
 			if s := c19MultiRoot(raw, roots); s != "" {
-				wantErr("rc_stateinit_malformed_accepted", fmt.Sprintf("multi-root-%v/%s", roots, w.name), s)
+				wantErr("rc_stateinit_multiroot_accepted", fmt.Sprintf("multi-root-%v/%s", roots, w.name), s)
 			}
 		}
 	}
@@ -1406,8 +1527,10 @@ func (c *c19Ctx) parseStateInit(wallets []*c19Wallet, byVer map[wallet.Version][
 		data := c19BitsCell(strings.Repeat("0", 64) + c19BytesBits(owner) + c19BytesBits(config) + "0" + "0000" + "0" + "0000" + "0")
 		s := c19CellB64(c19RawStateInit(wallet.GetCodeByVer(wallet.V3R2Lockup), data))
 		key, err, bad := call("lockup", s)
-		if bad == "" && err == nil && string(key) != string(owner) {
-			c.f.add("rc_stateinit_lockup_wrong_key", "ParseStateInit of a lockup wallet (v3R2 lockup code, owner key %x) = (%x, nil): neither the owner's key nor an error; state-init=%q", []byte(owner), key, s)
+		if bad == "" && err == nil && string(key) == string(make([]byte, 32)) {
+			c.f.add("rc_stateinit_lockup_version_yields_zero_key", "ParseStateInit of a lockup wallet (v3R2 lockup code, owner key %x) = (%x, nil): neither the owner's key nor an error; state-init=%q", []byte(owner), key, s)
+		} else if bad == "" && err == nil && string(key) != string(owner) {
+			c.f.add("rc_parsestateinit_wrong_key_lockup", "ParseStateInit of a lockup wallet (v3R2 lockup code, owner key %x) = (%x, nil): neither the owner's key nor an error; state-init=%q", []byte(owner), key, s)
 		}
 	}
 
@@ -1423,7 +1546,7 @@ func (c *c19Ctx) parseStateInit(wallets []*c19Wallet, byVer map[wallet.Version][
 		raw, _ := base64.StdEncoding.DecodeString(w.siB64)
 		for n := 0; n < len(raw); n += stepT {
 			s := base64.StdEncoding.EncodeToString(raw[:n])
-			wantErr("rc_stateinit_malformed_accepted", fmt.Sprintf("truncated-%d-of-%d/%s", n, len(raw), w.name), s)
+			wantErr("rc_stateinit_truncated_accepted", fmt.Sprintf("truncated-%d-of-%d/%s", n, len(raw), w.name), s)
 		}
 		// the same through the base64 text
 		for n := 0; n < len(w.siB64); n += stepT * 8 {
